@@ -1,301 +1,356 @@
 /-
-  C15 — the protocol invariant and its preservation by every step of the by-value variant.
+  C15 — the protocol invariant `PInv` and its preservation by every step, for every lock discipline
+  that is `ok` (writes under the exclusive lock, reads under at least the shared lock, no reference
+  handed out).  Mutual exclusion (`Excl`) and the legality of the linearized history (`replay`) hold
+  for EVERY discipline: they only depend on the lock's specification / on the ghost bookkeeping.
 -/
 import Vita.C15.Model
 namespace Vita.C15
 
-/-- what must hold of a thread in state `x` given the slot `(key, words)` and the stores so far -/
-def TOK (L : Nat) (key : Option Key) (words : List Tok) (stored : List Tok) : T → Prop
-  | .wLocked k id => (k, id) ∈ stored
-  | .wWrite k id i => key = none ∧ i ≤ L ∧ words.take i = List.replicate i (k, id) ∧ (k, id) ∈ stored
-  | .fCopy k acc => key = some k ∧ acc.length ≤ L ∧ acc = words.take acc.length
-  | .fDone k (some v) => ∃ id, (k, id) ∈ stored ∧ v = List.replicate L (k, id)
-  | _ => True
+theorem upd_same (th : Tid → T) (t x) : upd th t x t = x := by simp [upd]
+theorem upd_other (th : Tid → T) (t x u) (h : u ≠ t) : upd th t x u = th u := by simp [upd, h]
 
-/-- the slot is empty or holds one whole stored value under its key -/
-def SlotOK (L : Nat) (key : Option Key) (words : List Tok) (stored : List Tok) : Prop :=
-  key = none ∨ ∃ k id, key = some k ∧ (k, id) ∈ stored ∧ words = List.replicate L (k, id)
+/-! ### mutual exclusion (any discipline) -/
 
-structure PInv (s : S) : Prop where
-  len : s.words.length = s.L
-  /-- a writer excludes every other lock holder -/
-  excl : ∀ t u, t ≠ u → (s.th t).isW = true → (s.th u).holds = false
-  /-- with no insert in its data phase the slot is consistent -/
-  slot : (∀ u, (s.th u).isWriting = false) → SlotOK s.L s.key s.words s.stored
-  thr : ∀ u, TOK s.L s.key s.words s.stored (s.th u)
+/-- a thread that holds the lock exclusively is the only holder -/
+def Excl (d : Disc) (th : Tid → T) : Prop := ∀ a b, a ≠ b → lockOf d (th a) = .excl → lockOf d (th b) = .none
 
-theorem upd_same (th t x) : upd th t x t = x := by simp [upd]
-theorem upd_other (th t x u) (h : u ≠ t) : upd th t x u = th u := by simp [upd, h]
+/-- a thread keeps its lock, gives it back, or takes one the specification lets it have -/
+theorem excl_upd {d : Disc} {th : Tid → T} (h : Excl d th) (t : Tid) (x : T)
+    (hl : lockOf d x = lockOf d (th t) ∨ lockOf d x = .none ∨ Free d th (lockOf d x)) : Excl d (upd th t x) := by
+  intro a b hab ha
+  by_cases ea : a = t
+  · subst ea
+    rw [upd_same] at ha
+    rw [upd_other _ _ _ _ (Ne.symm hab)]
+    rcases hl with hl | hl | hl
+    · exact h a b hab (by rw [← hl]; exact ha)
+    · rw [hl] at ha; cases ha
+    · rw [ha] at hl; exact hl b
+  · rw [upd_other _ _ _ _ ea] at ha
+    by_cases eb : b = t
+    · subst eb
+      rw [upd_same]
+      rcases hl with hl | hl | hl
+      · rw [hl]; exact h a b hab ha
+      · exact hl
+      · cases hx : lockOf d x with
+        | none => rfl
+        | shared => rw [hx] at hl; exact absurd ha (hl a)
+        | excl => rw [hx] at hl; have := hl a; rw [ha] at this; cases this
+    · rw [upd_other _ _ _ _ eb]; exact h a b hab ha
 
-/-- a thread that holds no lock only depends on the set of stores, which grows -/
-theorem TOK_frame {L key words stored key' words' stored'} {x : T} (hx : x.holds = false)
-    (hsub : ∀ a, a ∈ stored → a ∈ stored') (h : TOK L key words stored x) : TOK L key' words' stored' x := by
-  cases x with
-  | fDone k r =>
-    cases r with
-    | none => trivial
-    | some v => obtain ⟨id, h1, h2⟩ := h; exact ⟨id, hsub _ h1, h2⟩
-  | idle => trivial
-  | rCopy => trivial
-  | fLocked => trivial
-  | fMissed => trivial
-  | cLocked => trivial
-  | cCleared => trivial
-  | fCopy => simp [T.holds, T.isW, T.isR] at hx
-  | wLocked => simp [T.holds, T.isW, T.isR] at hx
-  | wWrite => simp [T.holds, T.isW, T.isR] at hx
+theorem excl_init (d : Disc) (c : Cfg) : Excl d (S.init c).th := by
+  intro a b _ ha; simp [S.init, lockOf] at ha
+
+/-- every action changes the state of its own thread only, and in a lock-respecting way -/
+theorem step1_th {d : Disc} {c : Cfg} {s s' : S} (a : Act) (h : step1 d c s a = some s') :
+    ∃ x, s'.th = upd s.th a.tid x ∧
+      (lockOf d x = lockOf d (s.th a.tid) ∨ lockOf d x = .none ∨ (lockOf d x = acq d a)) := by
+  cases a <;> simp only [step1] at h <;> (repeat' split at h) <;> (try cases h)
+  all_goals simp only [Act.tid]
+  all_goals first
+    | exact ⟨_, rfl, Or.inr (Or.inr rfl)⟩
+    | (refine ⟨_, rfl, Or.inl ?_⟩; simp_all [lockOf]; done)
+    | (refine ⟨_, rfl, Or.inr (Or.inl ?_)⟩; simp_all [lockOf]; done)
+    | (refine ⟨_, rfl, Or.inr (Or.inl ?_)⟩; split <;> rfl)
+
+theorem step_excl {d : Disc} {c : Cfg} {s s' : S} (h : Excl d s.th) (st : Step d c s s') : Excl d s'.th := by
+  obtain ⟨a, hf, h1⟩ := st
+  obtain ⟨x, hx, hl⟩ := step1_th a h1
+  rw [hx]
+  refine excl_upd h _ _ ?_
+  rcases hl with hl | hl | hl
+  · exact Or.inl hl
+  · exact Or.inr (Or.inl hl)
+  · exact Or.inr (Or.inr (by rw [hl]; exact hf))
+
+/-! ### the linearized history is a legal history of the sequential cache (any discipline) -/
+
+theorem step1_hist {d : Disc} {c : Cfg} {s s' : S} (a : Act) (hh : replay c s.lin = some s.abs)
+    (h : step1 d c s a = some s') : replay c s'.lin = some s'.abs := by
+  cases a <;> simp only [step1] at h <;> (repeat' split at h) <;> (try cases h)
+  all_goals first
+    | exact hh
+    | simp [replay, hh, Mem.legal, Mem.apply]
+
+/-! ### the invariant -/
+
+/-- `v` is one complete value that was stored under `k` -/
+def Complete (c : Cfg) (stored : List Tok) (k : Key) (v : List Tok) : Prop := ∃ id, (k, id) ∈ stored ∧ v = val c k id
+
+def SlotOK (c : Cfg) (stored : List Tok) (x : Slot) : Prop := ∀ k, x.key = some k → Complete c stored k x.words
+def AbsOK (c : Cfg) (stored : List Tok) (m : Mem) : Prop := ∀ i, SlotOK c stored (m.tab i)
+def LenOK (c : Cfg) (m : Mem) : Prop := ∀ i, (m.tab i).words.length = c.L
+
+/-- what must hold of thread `u` in state `x`; `last` is its most recent linearized operation -/
+def TOK (c : Cfg) (mem abs : Mem) (last : Option Ev) (stored : List Tok) (u : Tid) : T → Prop
+  | .idle | .fLocked _ | .pEval _ | .sLocked => True
+  | .fCopy k acc => ∃ v, last = some (.find u k (some v)) ∧ mem.find c k = some v ∧ acc = v.take acc.length ∧ acc.length ≤ c.L
+  | .fMissed k => last = some (.find u k none)
+  | .fDone k r => last = some (.find u k r) ∧ ∀ v, r = some v → Complete c stored k v
+  | .rCopy .. => False
+  | .pDone k v => Complete c stored k v ∧
+      (last = some (.find u k (some v)) ∨ ∃ id, last = some (.insert u k id) ∧ v = val c k id)
+  | .wLocked k id _ => last = some (.insert u k id) ∧ (k, id) ∈ stored ∧ abs = mem.insert c k (val c k id)
+  | .wWrite k id _ i => last = some (.insert u k id) ∧ (k, id) ∈ stored ∧ i ≤ c.L ∧ abs = mem.insert c k (val c k id) ∧
+      (mem.tab (c.idx k)).key = some k ∧ (mem.tab (c.idx k)).words.take i = List.replicate i (k, id)
+  | .wFin k id _ => last = some (.insert u k id) ∧ (k, id) ∈ stored ∧ mem = abs
+  | .cLocked => abs = mem.clear c
+  | .cDone | .kDone | .lFin => mem = abs
+  | .kLocked k => abs = mem.clearKey c k
+  | .sRun rest out => ∃ full, last = some (.save u full) ∧ full = out ++ mem.saveOf rest ∧
+      ∀ e, e ∈ out → Complete c stored e.1 e.2
+  | .sDone out => last = some (.save u out) ∧ ∀ e, e ∈ out → Complete c stored e.1 e.2
+  | .lRun sl es ok => abs = mem.load c sl es ok
+
+structure PInv (d : Disc) (c : Cfg) (s : S) : Prop where
+  excl : Excl d s.th
+  len : LenOK c s.mem
+  absok : AbsOK c s.stored s.abs
+  /-- when no thread is inside a writing operation the table IS the sequential cache -/
+  quiet : (∀ u, (s.th u).writing = false) → s.mem = s.abs
+  thr : ∀ u, TOK c s.mem s.abs (lastOf u s.lin) s.stored u (s.th u)
+
+structure OkF (d : Disc) : Prop where
+  find : d.find ≠ .none
+  ref : d.findRef = false
+  insert : d.insert = .excl
+  clear : d.clear = .excl
+  clearKey : d.clearKey = .excl
+  save : d.save ≠ .none
+  load : d.load = .excl
+
+theorem okF {d : Disc} (h : d.ok = true) : OkF d := by
+  simp only [Disc.ok, Bool.and_eq_true, Bool.not_eq_true', beq_iff_eq] at h
+  obtain ⟨⟨⟨⟨⟨⟨h1, h2⟩, h3⟩, h4⟩, h5⟩, h6⟩, h7⟩ := h
+  refine ⟨?_, h2, h3, h4, h5, ?_, h7⟩
+  · intro e; rw [e] at h1; cases h1
+  · intro e; rw [e] at h6; cases h6
+
+theorem writing_excl {d : Disc} (hok : OkF d) {x : T} (h : x.writing = true) : lockOf d x = .excl := by
+  cases x <;> simp_all [T.writing, lockOf, hok.insert, hok.clear, hok.clearKey, hok.load]
+
+theorem Complete_mono {c : Cfg} {stored stored' : List Tok} {k v} (hsub : ∀ a, a ∈ stored → a ∈ stored')
+    (h : Complete c stored k v) : Complete c stored' k v := by
+  obtain ⟨id, h1, h2⟩ := h; exact ⟨id, hsub _ h1, h2⟩
+
+theorem AbsOK_mono {c : Cfg} {stored stored' : List Tok} {m} (hsub : ∀ a, a ∈ stored → a ∈ stored')
+    (h : AbsOK c stored m) : AbsOK c stored' m := fun i k hk => Complete_mono hsub (h i k hk)
 
 /-- growing the set of stores keeps every thread fact -/
-theorem TOK_mono {L key words stored stored'} {x : T}
-    (hsub : ∀ a, a ∈ stored → a ∈ stored') (h : TOK L key words stored x) : TOK L key words stored' x := by
-  cases x with
-  | fDone k r =>
-    cases r with
-    | none => trivial
-    | some v => obtain ⟨id, h1, h2⟩ := h; exact ⟨id, hsub _ h1, h2⟩
-  | wLocked k id => exact hsub _ h
-  | wWrite k id i => exact ⟨h.1, h.2.1, h.2.2.1, hsub _ h.2.2.2⟩
-  | fCopy => exact h
-  | idle => trivial
-  | rCopy => trivial
-  | fLocked => trivial
-  | fMissed => trivial
-  | cLocked => trivial
-  | cCleared => trivial
+theorem TOK_mono {c mem abs last stored stored' u} {x : T} (hsub : ∀ a, a ∈ stored → a ∈ stored')
+    (h : TOK c mem abs last stored u x) : TOK c mem abs last stored' u x := by
+  cases x <;> simp only [TOK] at h ⊢
+  case fCopy => exact h
+  case fMissed => exact h
+  case fDone => exact ⟨h.1, fun v hv => Complete_mono hsub (h.2 v hv)⟩
+  case pDone => exact ⟨Complete_mono hsub h.1, h.2⟩
+  case wLocked => exact ⟨h.1, hsub _ h.2.1, h.2.2⟩
+  case wWrite => exact ⟨h.1, hsub _ h.2.1, h.2.2⟩
+  case wFin => exact ⟨h.1, hsub _ h.2.1, h.2.2⟩
+  case cLocked => exact h
+  case cDone => exact h
+  case kDone => exact h
+  case lFin => exact h
+  case kLocked => exact h
+  case sRun =>
+    obtain ⟨full, h1, h2, h3⟩ := h
+    exact ⟨full, h1, h2, fun e he => Complete_mono hsub (h3 e he)⟩
+  case sDone => exact ⟨h.1, fun e he => Complete_mono hsub (h.2 e he)⟩
+  case lRun => exact h
 
-theorem SlotOK_mono {L key words stored stored'} (hsub : ∀ a, a ∈ stored → a ∈ stored')
-    (h : SlotOK L key words stored) : SlotOK L key words stored' := by
-  rcases h with h | ⟨k, id, h1, h2, h3⟩
-  · exact Or.inl h
-  · exact Or.inr ⟨k, id, h1, hsub _ h2, h3⟩
+/-- a thread that holds no lock only depends on its own last linearized operation and on the set of
+    stores: whatever happens to the table leaves its fact alone -/
+theorem TOK_nolock {d : Disc} (hok : OkF d) {c mem abs mem' abs' last stored stored' u} {x : T}
+    (hx : lockOf d x = .none) (hsub : ∀ a, a ∈ stored → a ∈ stored')
+    (h : TOK c mem abs last stored u x) : TOK c mem' abs' last stored' u x := by
+  have hf := hok.find; have hs := hok.save
+  cases x <;> simp only [lockOf, hok.insert, hok.clear, hok.clearKey, hok.load] at hx <;>
+    (try cases hx) <;> (try exact absurd hx hf) <;> (try exact absurd hx hs)
+  all_goals first
+    | trivial
+    | exact TOK_mono hsub h
 
-/-- a step of thread `t` that touches only `t`'s state, into a state `x` with the same lock status -/
-theorem pinv_thread_only {s : S} (h : PInv s) (t : Tid) (x : T)
-    (hW : x.isW = (s.th t).isW) (hH : x.holds = (s.th t).holds) (hWr : x.isWriting = (s.th t).isWriting)
-    (hx : TOK s.L s.key s.words s.stored x) : PInv { s with th := upd s.th t x } := by
+theorem lastOf_cons_other {u : Tid} {e : Ev} {l : List Ev} (h : e.tid ≠ u) : lastOf u (e :: l) = lastOf u l := by
+  simp [lastOf, h]
+
+theorem lastOf_cons_self {e : Ev} {l : List Ev} : lastOf e.tid (e :: l) = some e := by
+  simp [lastOf]
+
+/-- a step of a thread that does not write: the table and the ghost cache are untouched -/
+theorem pinv_local {d : Disc} {c : Cfg} {s : S} (h : PInv d c s) (t : Tid) (x : T) (lin' : List Ev)
+    (hlin : ∀ u, u ≠ t → lastOf u lin' = lastOf u s.lin)
+    (htw : (s.th t).writing = false)
+    (hlock : lockOf d x = lockOf d (s.th t) ∨ lockOf d x = .none ∨ Free d s.th (lockOf d x))
+    (hx : TOK c s.mem s.abs (lastOf t lin') s.stored t x) :
+    PInv d c { s with th := upd s.th t x, lin := lin' } := by
   constructor
+  · exact excl_upd h.excl t x hlock
   · exact h.len
-  · intro a b hab ha
-    dsimp only at ha ⊢
-    by_cases e1 : a = t
-    · subst e1
-      rw [upd_same] at ha
-      rw [upd_other _ _ _ _ (Ne.symm hab)]
-      exact h.excl a b hab (by rw [← hW]; exact ha)
-    · rw [upd_other _ _ _ _ e1] at ha
-      by_cases e2 : b = t
-      · subst e2; rw [upd_same, hH]; exact h.excl a b hab ha
-      · rw [upd_other _ _ _ _ e2]; exact h.excl a b hab ha
+  · exact h.absok
   · intro hq
-    dsimp only at hq ⊢
-    apply h.slot
+    apply h.quiet
     intro u
     by_cases e : u = t
-    · subst e; have := hq u; rw [upd_same] at this; rw [← hWr]; exact this
-    · have := hq u; rw [upd_other _ _ _ _ e] at this; exact this
+    · subst e; exact htw
+    · have := hq u; dsimp only at this; rw [upd_other _ _ _ _ e] at this; exact this
   · intro u
     dsimp only
     by_cases e : u = t
     · subst e; rw [upd_same]; exact hx
-    · rw [upd_other _ _ _ _ e]; exact h.thr u
+    · rw [upd_other _ _ _ _ e, hlin u e]; exact h.thr u
 
-theorem isW_holds {x : T} (h : x.isW = true) : x.holds = true := by simp [T.holds, h]
-theorem isWriting_isW {x : T} (h : x.isWriting = true) : x.isW = true := by
-  cases x <;> simp_all [T.isWriting, T.isW]
-
-/-- a step of a reader or of a thread that holds nothing: the slot is untouched -/
-theorem pinv_reader_step {s : S} (h : PInv s) (t : Tid) (x : T)
-    (hxW : x.isW = false) (htW : (s.th t).isW = false)
-    (hnw : x.holds = true → ∀ a, a ≠ t → (s.th a).isW = false)
-    (hx : TOK s.L s.key s.words s.stored x) : PInv { s with th := upd s.th t x } := by
-  have hxWr : x.isWriting = false := by
-    cases hw : x.isWriting with
-    | false => rfl
-    | true => rw [isWriting_isW hw] at hxW; cases hxW
-  have htWr : (s.th t).isWriting = false := by
-    cases hw : (s.th t).isWriting with
-    | false => rfl
-    | true => rw [isWriting_isW hw] at htW; cases htW
+/-- a step of the thread that holds (or takes, or gives back) the lock exclusively: nobody else holds
+    anything, so the table and the ghost cache may change -/
+theorem pinv_excl {d : Disc} (hok : OkF d) {c : Cfg} {s : S} (h : PInv d c s) (t : Tid) (x : T)
+    (mem' abs' : Mem) (lin' : List Ev) (stored' : List Tok)
+    (hoth : ∀ u, u ≠ t → lockOf d (s.th u) = .none)
+    (hlin : ∀ u, u ≠ t → lastOf u lin' = lastOf u s.lin)
+    (hsub : ∀ a, a ∈ s.stored → a ∈ stored')
+    (hlen : LenOK c mem') (habs : AbsOK c stored' abs')
+    (hq : x.writing = false → mem' = abs')
+    (hx : TOK c mem' abs' (lastOf t lin') stored' t x) :
+    PInv d c ⟨mem', abs', lin', upd s.th t x, stored'⟩ := by
   constructor
-  · exact h.len
   · intro a b hab ha
     dsimp only at ha ⊢
-    by_cases e1 : a = t
-    · subst e1; rw [upd_same, hxW] at ha; cases ha
-    · rw [upd_other _ _ _ _ e1] at ha
-      by_cases e2 : b = t
-      · subst e2; rw [upd_same]
-        cases hh : x.holds with
-        | false => rfl
-        | true => have := hnw hh a e1; rw [this] at ha; cases ha
-      · rw [upd_other _ _ _ _ e2]; exact h.excl a b hab ha
-  · intro hq
-    dsimp only at hq ⊢
-    apply h.slot
-    intro u
-    by_cases e : u = t
-    · subst e; exact htWr
-    · have := hq u; rw [upd_other _ _ _ _ e] at this; exact this
-  · intro u
-    dsimp only
-    by_cases e : u = t
-    · subst e; rw [upd_same]; exact hx
-    · rw [upd_other _ _ _ _ e]; exact h.thr u
-
-/-- a step of the thread that holds (or takes, or gives back) the exclusive lock: nobody else
-    holds anything, so the slot may change -/
-theorem pinv_writer_step {s : S} (h : PInv s) (t : Tid) (x : T) (key' : Option Key) (words' stored' : List Tok)
-    (hothers : ∀ u, u ≠ t → (s.th u).holds = false)
-    (hlen : words'.length = s.L) (hsub : ∀ a, a ∈ s.stored → a ∈ stored')
-    (hslot : x.isWriting = false → SlotOK s.L key' words' stored')
-    (hx : TOK s.L key' words' stored' x) :
-    PInv { s with th := upd s.th t x, key := key', words := words', stored := stored' } := by
-  constructor
+    by_cases eb : b = t
+    · subst eb
+      rw [upd_other _ _ _ _ hab] at ha
+      rw [hoth a hab] at ha; cases ha
+    · rw [upd_other _ _ _ _ eb]; exact hoth b eb
   · exact hlen
-  · intro a b hab ha
-    dsimp only at ha ⊢
-    by_cases e2 : b = t
-    · subst e2
-      have e1 : a ≠ b := hab
-      rw [upd_other _ _ _ _ e1] at ha
-      have := hothers a e1
-      rw [isW_holds ha] at this; cases this
-    · rw [upd_other _ _ _ _ e2]; exact hothers b e2
-  · intro hq
-    dsimp only at hq ⊢
-    have := hq t; rw [upd_same] at this
-    exact hslot this
+  · exact habs
+  · intro hq'
+    have := hq' t; dsimp only at this; rw [upd_same] at this
+    exact hq this
   · intro u
     dsimp only
     by_cases e : u = t
     · subst e; rw [upd_same]; exact hx
-    · rw [upd_other _ _ _ _ e]; exact TOK_frame (hothers u e) hsub (h.thr u)
+    · rw [upd_other _ _ _ _ e, hlin u e]; exact TOK_nolock hok (hoth u e) hsub (h.thr u)
 
-/-- everybody but a writer `t` holds nothing -/
-theorem others_of_writer {s : S} (h : PInv s) (t : Tid) (ht : (s.th t).isW = true) :
-    ∀ u, u ≠ t → (s.th u).holds = false := fun u e => h.excl t u (Ne.symm e) ht
+/-- everybody but the holder of the exclusive lock holds nothing -/
+theorem others_none {d : Disc} {c : Cfg} {s : S} (h : PInv d c s) (t : Tid) (ht : lockOf d (s.th t) = .excl) :
+    ∀ u, u ≠ t → lockOf d (s.th u) = .none := fun u e => h.excl t u (Ne.symm e) ht
 
-/-- while a reader `t` holds the shared lock nobody writes -/
-theorem no_writer_of_reader {s : S} (h : PInv s) (t : Tid) (ht : (s.th t).holds = true) :
-    ∀ a, a ≠ t → (s.th a).isW = false := by
-  intro a e
-  cases hw : (s.th a).isW with
-  | false => rfl
-  | true => have := h.excl a t e hw; rw [this] at ht; cases ht
+/-- while a thread holds the lock (in any mode) and does not write itself, nobody writes: the table
+    is the sequential cache -/
+theorem mem_eq_abs {d : Disc} (hok : OkF d) {c : Cfg} {s : S} (h : PInv d c s) (t : Tid)
+    (ht : lockOf d (s.th t) ≠ .none) (htw : (s.th t).writing = false) : s.mem = s.abs := by
+  apply h.quiet
+  intro u
+  by_cases e : u = t
+  · subst e; exact htw
+  · cases hw : (s.th u).writing with
+    | false => rfl
+    | true => exact absurd (h.excl u t e (writing_excl hok hw)) ht
 
-theorem common_inv {s s' : S} (h : PInv s) (st : Common s s') : PInv s' := by
-  cases st with
-  | fAcquire t k hi hf =>
-    exact pinv_reader_step h t _ rfl (by rw [hi]; rfl) (fun _ a _ => hf a) trivial
-  | fMiss t k hl hk =>
-    exact pinv_reader_step h t _ rfl (by rw [hl]; rfl)
-      (fun _ => no_writer_of_reader h t (by rw [hl]; rfl)) trivial
-  | fMissRelease t k hm =>
-    exact pinv_reader_step h t _ rfl (by rw [hm]; rfl) (fun hh => by simp [T.holds, T.isW, T.isR] at hh) trivial
-  | fReturn t k r hd =>
-    exact pinv_reader_step h t _ rfl (by rw [hd]; rfl) (fun hh => by simp [T.holds, T.isW, T.isR] at hh) trivial
-  | wAcquire t k id hi hf =>
-    have := pinv_writer_step h t (.wLocked k id) s.key s.words ((k, id) :: s.stored)
-      (fun u _ => hf u) h.len (fun a ha => List.mem_cons_of_mem _ ha)
-      (fun _ => SlotOK_mono (fun a ha => List.mem_cons_of_mem _ ha) (h.slot (fun u => by
-        cases hw : (s.th u).isWriting with
-        | false => rfl
-        | true => have := hf u; rw [isW_holds (isWriting_isW hw)] at this; cases this)))
-      (by simp [TOK])
-    exact this
-  | wKey t k id hl =>
-    have hw : (s.th t).isW = true := by rw [hl]; rfl
-    have ht := h.thr t; rw [hl] at ht
-    exact pinv_writer_step h t (.wWrite k id 0) none s.words s.stored (others_of_writer h t hw) h.len
-      (fun _ ha => ha) (fun hh => by simp [T.isWriting] at hh) (by simpa [TOK] using ht)
-  | wWord t k id i hwr hi =>
-    have hw : (s.th t).isW = true := by rw [hwr]; rfl
-    have ht := h.thr t; rw [hwr] at ht
-    obtain ⟨h1, h2, h3, h4⟩ := ht
-    refine pinv_writer_step h t (.wWrite k id (i + 1)) s.key (s.words.set i (k, id)) s.stored
-      (others_of_writer h t hw) (by simp [h.len]) (fun _ ha => ha) (fun hh => by simp [T.isWriting] at hh) ?_
-    refine ⟨h1, hi, ?_, h4⟩
-    have hl := h.len
-    rw [List.take_add_one, List.take_set_of_le (Nat.le_refl i), h3, List.replicate_succ']
-    congr 1
-    simp [hl, hi]
-  | wRelease t k id hwr =>
-    have hw : (s.th t).isW = true := by rw [hwr]; rfl
-    have ht := h.thr t; rw [hwr] at ht
-    obtain ⟨_, _, h3, h4⟩ := ht
-    refine pinv_writer_step h t .idle (some k) s.words s.stored (others_of_writer h t hw) h.len
-      (fun _ ha => ha) (fun _ => Or.inr ⟨k, id, rfl, h4, ?_⟩) trivial
-    rw [← h3, List.take_of_length_le (by rw [h.len]; exact Nat.le_refl _)]
-  | cAcquire t hi hf =>
-    have := pinv_writer_step h t .cLocked s.key s.words s.stored (fun u _ => hf u) h.len (fun _ ha => ha)
-      (fun _ => h.slot (fun u => by
-        cases hw : (s.th u).isWriting with
-        | false => rfl
-        | true => have := hf u; rw [isW_holds (isWriting_isW hw)] at this; cases this))
-      trivial
-    exact this
-  | cInvalidate t hc =>
-    have hw : (s.th t).isW = true := by rw [hc]; rfl
-    exact pinv_writer_step h t .cCleared none s.words s.stored (others_of_writer h t hw) h.len
-      (fun _ ha => ha) (fun _ => Or.inl rfl) trivial
-  | cRelease t hc =>
-    have hw : (s.th t).isW = true := by rw [hc]; rfl
-    have := pinv_writer_step h t .idle s.key s.words s.stored (others_of_writer h t hw) h.len
-      (fun _ ha => ha) (fun _ => h.slot (fun u => by
-        by_cases e : u = t
-        · subst e; rw [hc]; rfl
-        · cases hwr : (s.th u).isWriting with
-          | false => rfl
-          | true =>
-            have := others_of_writer h t hw u e
-            rw [isW_holds (isWriting_isW hwr)] at this; cases this)) trivial
-    exact this
+/-! ### facts about the table operations -/
 
-theorem stepV_inv {s s' : S} (h : PInv s) (st : StepV s s') : PInv s' := by
-  cases st with
-  | common _ c => exact common_inv h c
-  | fHit t k hl hk =>
-    exact pinv_reader_step h t _ rfl (by rw [hl]; rfl)
-      (fun _ => no_writer_of_reader h t (by rw [hl]; rfl)) ⟨hk, Nat.zero_le _, by simp⟩
-  | fCopyWord t k acc w hc hw =>
-    have ht := h.thr t; rw [hc] at ht
-    obtain ⟨h1, h2, h3⟩ := ht
-    have hlt : acc.length < s.words.length := by
-      rcases Nat.lt_or_ge acc.length s.words.length with h | h
-      · exact h
-      · rw [List.getElem?_eq_none h] at hw; cases hw
-    refine pinv_reader_step h t _ rfl (by rw [hc]; rfl)
-      (fun _ => no_writer_of_reader h t (by rw [hc]; rfl)) ⟨h1, ?_, ?_⟩
-    · simp only [List.length_append, List.length_singleton]; rw [← h.len]; exact hlt
-    · simp only [List.length_append, List.length_singleton]
-      rw [List.take_add_one, ← h3, hw]; rfl
-  | fRelease t k acc hc hl =>
-    have ht := h.thr t; rw [hc] at ht
-    obtain ⟨h1, _, h3⟩ := ht
-    have hnw := no_writer_of_reader h t (by rw [hc]; rfl)
-    have hslot := h.slot (fun u => by
-      by_cases e : u = t
-      · subst e; rw [hc]; rfl
-      · cases hwr : (s.th u).isWriting with
-        | false => rfl
-        | true => have := hnw u e; rw [isWriting_isW hwr] at this; cases this)
-    refine pinv_reader_step h t _ rfl (by rw [hc]; rfl) (fun hh => by simp [T.holds, T.isW, T.isR] at hh) ?_
-    rcases hslot with hn | ⟨k', id, hk', hmem, hwords⟩
-    · rw [hn] at h1; cases h1
-    · rw [h1] at hk'; cases hk'
-      refine ⟨id, hmem, ?_⟩
-      rw [h3, hl, ← h.len, List.take_length, hwords]; simp
+theorem Mem.ext' {a b : Mem} (h1 : a.ep = b.ep) (h2 : ∀ i, a.tab i = b.tab i) : a = b := by
+  cases a; cases b; simp only at h1 h2; subst h1; congr; exact funext h2
 
-theorem pinv_init (L : Nat) : PInv (S.init L) := by
-  constructor
-  · simp [S.init]
-  · intro a b _ ha; simp [S.init, T.isW] at ha
-  · intro _; exact Or.inl rfl
-  · intro u; trivial
+theorem find_some {c : Cfg} {m : Mem} {k : Key} {v : List Tok} (h : m.find c k = some v) :
+    m.ep = (m.tab (c.idx k)).sl ∧ (m.tab (c.idx k)).key = some k ∧ (m.tab (c.idx k)).words = v := by
+  simp only [Mem.find] at h
+  split at h
+  · rename_i hc; cases h; exact ⟨hc.1, hc.2, rfl⟩
+  · cases h
 
-theorem reach_inv {L : Nat} {s : S} (h : Reach StepV (S.init L) s) : PInv s := by
-  induction h with
-  | refl => exact pinv_init L
-  | tail s s' _ st ih => exact stepV_inv ih st
+theorem modSlot_ep (m : Mem) (i : Nat) (f : Slot → Slot) : (m.modSlot i f).ep = m.ep := rfl
+theorem modSlot_same (m : Mem) (i : Nat) (f : Slot → Slot) : (m.modSlot i f).tab i = f (m.tab i) := by
+  simp [Mem.modSlot, setSlot]
+theorem modSlot_other (m : Mem) (i j : Nat) (f : Slot → Slot) (h : j ≠ i) : (m.modSlot i f).tab j = m.tab j := by
+  simp [Mem.modSlot, setSlot, h]
+
+/-- an insert overwrites the whole slot: what was in it before does not matter -/
+theorem insert_modSlot (c : Cfg) (m : Mem) (k : Key) (v : List Tok) (f : Slot → Slot) :
+    (m.modSlot (c.idx k) f).insert c k v = m.insert c k v := by
+  apply Mem.ext'
+  · rfl
+  · intro i
+    simp only [Mem.insert, Mem.modSlot, setSlot]
+    split <;> rfl
+
+theorem LenOK_modSlot {c : Cfg} {m : Mem} (h : LenOK c m) (i : Nat) (f : Slot → Slot)
+    (hf : (f (m.tab i)).words.length = c.L) : LenOK c (m.modSlot i f) := by
+  intro j
+  by_cases e : j = i
+  · subst e; rw [modSlot_same]; exact hf
+  · rw [modSlot_other _ _ _ _ e]; exact h j
+
+theorem val_length (c : Cfg) (k id) : (val c k id).length = c.L := by simp [val]
+
+theorem LenOK_fresh (c : Cfg) (ep : Nat) : LenOK c ⟨ep, fun _ => Slot.fresh c.L⟩ := by
+  intro i; simp [Slot.fresh]
+
+theorem LenOK_clear {c : Cfg} {m : Mem} (h : LenOK c m) : LenOK c (m.clear c) := by
+  simp only [Mem.clear]
+  split
+  · exact LenOK_fresh c 1
+  · exact h
+
+theorem AbsOK_fresh (c : Cfg) (stored : List Tok) (ep : Nat) : AbsOK c stored ⟨ep, fun _ => Slot.fresh c.L⟩ := by
+  intro i k hk; simp [Slot.fresh] at hk
+
+theorem AbsOK_clear {c : Cfg} {stored : List Tok} {m : Mem} (h : AbsOK c stored m) : AbsOK c stored (m.clear c) := by
+  simp only [Mem.clear]
+  split
+  · exact AbsOK_fresh c stored 1
+  · exact h
+
+theorem AbsOK_modSlot {c : Cfg} {stored : List Tok} {m : Mem} (h : AbsOK c stored m) (i : Nat) (f : Slot → Slot)
+    (hf : SlotOK c stored (f (m.tab i))) : AbsOK c stored (m.modSlot i f) := by
+  intro j
+  by_cases e : j = i
+  · subst e; rw [modSlot_same]; exact hf
+  · rw [modSlot_other _ _ _ _ e]; exact h j
+
+theorem AbsOK_insert {c : Cfg} {stored : List Tok} {m : Mem} (h : AbsOK c stored m) (k id : Nat)
+    (hm : (k, id) ∈ stored) : AbsOK c stored (m.insert c k (val c k id)) := by
+  intro j
+  simp only [Mem.insert, setSlot]
+  split
+  · intro k' hk'; simp only [Option.some.injEq] at hk'; subst hk'; exact ⟨id, hm, rfl⟩
+  · exact h j
+
+theorem loadTab_ok {c : Cfg} {stored : List Tok} (sl : Nat) (es : List Tok) (t : Nat → Slot)
+    (hes : ∀ e, e ∈ es → e ∈ stored) (ht : ∀ i, SlotOK c stored (t i)) : ∀ i, SlotOK c stored (loadTab c sl es t i) := by
+  induction es generalizing t with
+  | nil => exact ht
+  | cons e es ih =>
+    obtain ⟨k, id⟩ := e
+    simp only [loadTab]
+    apply ih
+    · intro e he; exact hes e (List.mem_cons_of_mem _ he)
+    · intro j
+      simp only [setSlot]
+      split
+      · intro k' hk'; simp only [Option.some.injEq] at hk'; subst hk'
+        exact ⟨id, hes _ (List.mem_cons_self), rfl⟩
+      · exact ht j
+
+theorem loadTab_len {c : Cfg} (sl : Nat) (es : List Tok) (t : Nat → Slot)
+    (ht : ∀ i, (t i).words.length = c.L) : ∀ i, (loadTab c sl es t i).words.length = c.L := by
+  induction es generalizing t with
+  | nil => exact ht
+  | cons e es ih =>
+    obtain ⟨k, id⟩ := e
+    simp only [loadTab]
+    apply ih
+    intro j
+    simp only [setSlot]
+    split
+    · exact val_length c k id
+    · exact ht j
+
+/-- writing the first entry and loading the rest is loading everything -/
+theorem load_modSlot (c : Cfg) (m : Mem) (sl : Nat) (k id : Nat) (rest : List Tok) (ok : Bool) :
+    (m.modSlot (c.idx k) (fun _ => ⟨some k, sl, val c k id⟩)).load c sl rest ok = m.load c sl ((k, id) :: rest) ok := by
+  apply Mem.ext'
+  · rfl
+  · intro i; rfl
 
 end Vita.C15
